@@ -2,40 +2,61 @@ use crate::macros::dispatch;
 
 pub use methods::dispatch as pow;
 
+fn exponent(n: f64) -> crate::CelResult<u32> {
+    if n >= 0.0 && n <= u32::MAX as f64 {
+        Ok(n as u32)
+    } else {
+        Err(crate::CelError::value(
+            "pow: exponent out of range for an integer base",
+        ))
+    }
+}
+
+fn overflow() -> crate::CelError {
+    crate::CelError::value("pow: integer overflow")
+}
+
 #[dispatch]
 mod methods {
-    use crate::CelValue;
+    use super::{exponent, overflow};
+    use crate::{CelResult, CelValue};
 
-    fn pow(n1: i64, n2: i64) -> i64 {
-        n1.pow(n2 as u32)
+    fn pow(n1: i64, n2: i64) -> CelResult<i64> {
+        n1.checked_pow(exponent(n2 as f64)?).ok_or_else(overflow)
     }
 
-    fn pow(n1: i64, n2: u64) -> i64 {
-        n1.pow(n2 as u32)
+    fn pow(n1: i64, n2: u64) -> CelResult<i64> {
+        n1.checked_pow(exponent(n2 as f64)?).ok_or_else(overflow)
     }
 
-    fn pow(n1: i64, n2: f64) -> i64 {
-        n1.pow(n2 as u32)
+    fn pow(n1: i64, n2: f64) -> CelResult<i64> {
+        n1.checked_pow(exponent(n2)?).ok_or_else(overflow)
     }
 
-    fn pow(n1: u64, n2: i64) -> u64 {
-        n1.pow(n2 as u32)
+    fn pow(n1: u64, n2: i64) -> CelResult<u64> {
+        n1.checked_pow(exponent(n2 as f64)?).ok_or_else(overflow)
     }
 
-    fn pow(n1: u64, n2: u64) -> u64 {
-        n1.pow(n2 as u32)
+    fn pow(n1: u64, n2: u64) -> CelResult<u64> {
+        n1.checked_pow(exponent(n2 as f64)?).ok_or_else(overflow)
     }
 
-    fn pow(n1: u64, n2: f64) -> u64 {
-        n1.pow(n2 as u32)
+    fn pow(n1: u64, n2: f64) -> CelResult<u64> {
+        n1.checked_pow(exponent(n2)?).ok_or_else(overflow)
     }
 
     fn pow(n1: f64, n2: i64) -> f64 {
-        n1.powi(n2 as i32)
+        match i32::try_from(n2) {
+            Ok(e) => n1.powi(e),
+            Err(_) => n1.powf(n2 as f64),
+        }
     }
 
     fn pow(n1: f64, n2: u64) -> f64 {
-        n1.powi(n2 as i32)
+        match i32::try_from(n2) {
+            Ok(e) => n1.powi(e),
+            Err(_) => n1.powf(n2 as f64),
+        }
     }
 
     fn pow(n1: f64, n2: f64) -> f64 {
